@@ -117,9 +117,44 @@ func scnConnFlap(grace time.Duration) *Scenario {
 	return s
 }
 
+// scnConnReelect: an outage that outlives a term. A leads and gets a disconnect
+// notification; during the outage an outside party takes the record (A's next heartbeat
+// demotes it); reconnect and a second disconnect arrive while A follows; the usurper's
+// record is deleted and A wins again before the first disconnect's grace period would have
+// elapsed. Whatever the first outage armed must not touch the new term before the grace
+// period of the latest disconnect is over.
+func scnConnReelect(grace time.Duration, secondD bool) *Scenario {
+	s := K1(&Scenario{Name: fmt.Sprintf("conn-reelect/grace%v/second-disconnect-%v", grace, secondD)})
+	s.Insts = []InstSpec{{ID: "A", Monitored: true, Grace: grace}}
+	s.Script = starts("A")
+	t := 1*s.H + 47*ms + 11*us
+	s.Script = append(s.Script,
+		Item{At: t, Actor: "conn", Do: "disconnect", Inst: "A", Fixed: true},
+		Item{At: t + 31*ms, Actor: "outside", Do: "put", Payload: `{"id":"X","token":"tok-x","priority":0}`, Fixed: true},
+		Item{At: t + 183*ms, Actor: "conn", Do: "reconnect", Inst: "A", Fixed: true})
+	last := t
+	if secondD {
+		s.Script = append(s.Script, Item{At: t + 231*ms, Actor: "conn", Do: "disconnect", Inst: "A", Fixed: true})
+		last = t + 231*ms
+	}
+	s.Script = append(s.Script, Item{At: t + 263*ms, Actor: "outside", Do: "delete", Fixed: true})
+	s.Horizon = last + effGrace(grace, s.H) + 3*s.H
+	s.MaxSteps = 3000
+	s.LatencyBound = s.H/2 - ms
+	s.DelayMenu = []time.Duration{s.H/2 - 2*ms}
+	s.Tags = map[string]string{"c11": "faultfree", "change": "usurper-then-release"}
+	s.AllowErr = nil
+	s.DevFrom = t - 5*ms
+	return s
+}
+
 func c11Plan(tier string) []PlanItem {
 	var items []PlanItem
 	items = append(items, PlanItem{scnConnFlap(2*200*ms + 7*ms + 13*us), 1})
+	items = append(items,
+		PlanItem{scnConnReelect(3*200*ms+ms+17*us, true), 1},
+		PlanItem{scnConnReelect(3*200*ms+ms+17*us, false), 1},
+		PlanItem{scnConnReelect(4*200*ms+3*ms+19*us, true), 1})
 	H := 200 * ms
 	// not multiples of H: a grace timer armed at a heartbeat instant must not expire
 	// exactly at another heartbeat instant (two library goroutines runnable at one
@@ -164,7 +199,7 @@ func init() {
 	oracles["C11"] = oracleC11
 	props["C11"] = &propDef{
 		Level:  "fault_enumeration",
-		Rule:   "all sequences over {disconnect, reconnect, closed} of length <= L delivered serially (as nats.go's dispatcher does) through the handlers the monitor registers on an unconnected nats.Conn, x grace in {2H, 3H+1ms} (and the 5s default on short sequences) x ownership change during the outage {none, usurper record, expiry} x (short sequences) partition of the store and Stop/StopWithContext; each notification and the change moved to every choice point (<= D deviations, incl. inside the 100ms settle sleep and the verification reads); non-trivial = a notification reached a leading instance",
+		Rule:   "all sequences over {disconnect, reconnect, closed} of length <= L delivered serially (as nats.go's dispatcher does) through the handlers the monitor registers on an unconnected nats.Conn, x grace in {2H, 3H+1ms} (and the 5s default on short sequences) x ownership change during the outage {none, usurper record, expiry; usurper record later released so that the instance leads a second term inside the first outage's grace period} x (short sequences) partition of the store and Stop/StopWithContext; each notification and the change moved to every choice point (<= D deviations, incl. inside the 100ms settle sleep and the verification reads); non-trivial = a notification reached a leading instance",
 		Assume: []string{"connection callbacks never overlap (nats.go dispatches them from one goroutine, in order); the harness reproduces that", "single monitored instance; the usurper is an outside writer"},
 		Plan:   func(t string) []PlanItem { return append(c11Plan(t), finePlan("C11", t)...) },
 	}
@@ -264,6 +299,11 @@ func oracleC11(r *Result) ([]Violation, bool) {
 					}
 				}
 				pendingExpiry = nil
+			}
+			if !leads && e.B {
+				// a new term: its record is fresh, an ownership change during an earlier
+				// term says nothing about it
+				changed = false
 			}
 			leads = e.B
 		case "demote":
